@@ -347,6 +347,15 @@ func (p *c20Proc) acceptedVersions() (acc []int, detail string, ok bool) {
 		ch := cl.Expect(1)
 		_ = cl.SendFrame(primitive.ProtocolVersion(v.Code), 0, 1, primitive.OpCodeOptions, nil)
 		f, err := cl.Wait(ch, c20Watchdog)
+		if err == nil && f.OpCode == primitive.OpCodeError && !cl.IsClosed() {
+			// a refused version stays refused: the same frame once more on the same connection (no reply = still refused)
+			ch2 := cl.Expect(2)
+			_ = cl.SendFrame(primitive.ProtocolVersion(v.Code), 0, 2, primitive.OpCodeOptions, nil)
+			if f2, err2 := cl.Wait(ch2, 2*time.Second); err2 == nil && f2.OpCode == primitive.OpCodeSupported {
+				f = f2
+				fmt.Fprintf(&sb, "%s:ERROR-then-", v.Name)
+			}
+		}
 		cl.Close()
 		switch {
 		case err != nil:
